@@ -307,6 +307,20 @@ func genMix(p *Plan, r *RNG, bias string) {
 		}
 	}
 	p.QuietNS = int64(r.PickInt([]int{5, 30, 700})) * sec
+	if !v6 && r.Chance(1, 4) {
+		// the same IPv4 peer written in its IPv4-mapped IPv6 notation (family 0x02): it is
+		// that peer, for permissions, bindings and duplicate checks alike
+		for i := range p.Ops {
+			k := p.Ops[i].Kind
+			if (k == "createperm" || k == "chanbind" || k == "send" || k == "connect") && r.Chance(1, 3) {
+				p.Ops[i].A.Flags = append(p.Ops[i].A.Flags, "mapped")
+			}
+		}
+		p.Flavor += "+mapped"
+	}
+	if !v6 && !tcpl && r.Chance(1, 8) {
+		addLookalikePeers(p, r)
+	}
 	addFaults(p, r, faultLevel(r))
 	if r.Chance(1, 5) {
 		addOverlap(p, r)
@@ -426,4 +440,29 @@ func genC19Reservation(p *Plan, r *RNG) {
 	p.Ops = append(p.Ops, Op{Actor: b, Kind: "createperm", At: gap(300 * ms), A: OpArgs{Peer: p.Peers[0].Addr}})
 	p.Ops = append(p.Ops, Op{Actor: "p1", Kind: "peer_send", At: gap(300 * ms), A: OpArgs{Target: b, Len: 40}})
 	p.QuietNS = 5 * sec
+}
+
+// addLookalikePeers: two transport addresses whose careless renderings coincide - "ip" + "port"
+// without a separator reads the same for 10.0.2.1:15000 and 10.0.2.11:5000. The client binds a
+// channel to (and so permits) the first; the second is a stranger and must stay one.
+func addLookalikePeers(p *Plan, r *RNG) {
+	if len(p.Clients) == 0 {
+		return
+	}
+	c := p.Clients[0].ID
+	a := PeerSpec{ID: "pa", Addr: "10.0.2.1:15000"}
+	b := PeerSpec{ID: "pb", Addr: "10.0.2.11:5000"}
+	if r.Chance(1, 2) {
+		a, b = PeerSpec{ID: "pa", Addr: "10.0.2.12:3456"}, PeerSpec{ID: "pb", Addr: "10.0.2.1:23456"}
+	}
+	p.Peers = append(p.Peers, a, b)
+	ch := 0x4000 + 0x3F0 + r.Intn(8)
+	p.Ops = append(p.Ops,
+		Op{Actor: c, Kind: "chanbind", At: gap(400 * ms), A: OpArgs{Peer: a.Addr, Chan: ch}},
+		Op{Actor: "pa", Kind: "peer_send", At: gap(200 * ms), A: OpArgs{Target: c, Len: r.Range(10, 100)}},
+		Op{Actor: "pb", Kind: "peer_send", At: gap(200 * ms), A: OpArgs{Target: c, Len: r.Range(10, 100)}},
+		Op{Actor: c, Kind: "send", At: gap(200 * ms), A: OpArgs{Peer: b.Addr, Len: r.Range(10, 100)}},
+		Op{Actor: c, Kind: "chanbind", At: gap(200 * ms), A: OpArgs{Peer: b.Addr, Chan: ch}}, // the number is taken: 400
+		Op{Actor: "pb", Kind: "peer_send", At: gap(200 * ms), A: OpArgs{Target: c, Len: r.Range(10, 100)}})
+	p.Flavor += "+lookalike"
 }
